@@ -548,6 +548,61 @@ pub fn t_write_scan<const KO: usize, const KN: usize>(hdr: &'static [u8]) {
     std::mem::forget(h);
 }
 
+/// Native fall-back replay for lemma 1 (used when the solver's trace for a failing instance does not fit in memory): the same
+/// construction as t_hunk_text on random edit scripts and bytes (CR, backslash, blank, high bytes among them), real memchr.
+#[cfg(test)]
+#[test]
+fn replay_sweep_hunk_text() {
+    let mut seed: u64 = 0x9E3779B97F4A7C15;
+    let mut rnd = |n: u64| -> u64 { seed ^= seed << 13; seed ^= seed >> 7; seed ^= seed << 17; seed % n };
+    let alphabet = [b'a', b'b', b'\r', b'\\', b' ', b'+', b'-', b'@', 0xFFu8, b'\t'];
+    let mut case = 0u64;
+    while case < 200_000 {
+        case += 1;
+        let k = 1 + rnd(5) as usize;
+        let mut ops: Vec<u8> = Vec::new();
+        let mut lines: Vec<u8> = Vec::new();
+        for _ in 0..k { ops.push([b' ', b'-', b'+'][rnd(3) as usize]); lines.push(alphabet[rnd(alphabet.len() as u64) as usize]); }
+        let nold = ops.iter().filter(|&&o| o != b'+').count();
+        let nnew = ops.iter().filter(|&&o| o != b'-').count();
+        let last_old = ops.iter().rposition(|&o| o != b'+');
+        let last_new = ops.iter().rposition(|&o| o != b'-');
+        let (mut a, mut b) = (rnd(2) == 0 && nold > 0, rnd(2) == 0 && nnew > 0);
+        // a line without newline is the last line of its file: a context line can only carry the tag when it ends both sides
+        if a && ops[last_old.unwrap()] == b' ' { if last_new == last_old { b = true; } else { a = false; } }
+        if b && ops[last_new.unwrap()] == b' ' { if last_new == last_old { a = true; } else { b = false; } }
+        let (os, ns) = (1 + rnd(9) as usize, 1 + rnd(9) as usize);
+        let mut text: Vec<u8> = format!("@@ -{},{} +{},{} @@\n", os, nold, ns, nnew).into_bytes();
+        for i in 0..k {
+            text.extend_from_slice(&[ops[i], lines[i], b'\n']);
+            let tag = (a && Some(i) == last_old && ops[i] != b'+') || (b && Some(i) == last_new && ops[i] != b'-');
+            if tag { text.extend_from_slice(b"\\ No newline at end of file\n"); }
+        }
+        let shown = String::from_utf8_lossy(&text).into_owned();
+        let (rest, h) = match parse_hunk(&text[..]) { Ok(x) => x, Err(_) => panic!("a well-formed hunk was rejected: {:?}", shown) };
+        assert!(rest.is_empty(), "hunk text not consumed: {:?}", shown);
+        assert!(h.remove.content.len() == nold && h.add.content.len() == nnew, "side lengths: {:?}", shown);
+        let (mut io, mut ia) = (0usize, 0usize);
+        for i in 0..k {
+            if ops[i] != b'+' {
+                let nonl = a && Some(i) == last_old;
+                let want: &[u8] = if nonl { &lines[i..i + 1] } else { &[lines[i], b'\n'] };
+                assert!(h.remove.content[io] == want, "old-side line differs: {:?}", shown);
+                io += 1;
+            }
+            if ops[i] != b'-' {
+                let nonl = b && Some(i) == last_new;
+                let want: &[u8] = if nonl { &lines[i..i + 1] } else { &[lines[i], b'\n'] };
+                assert!(h.add.content[ia] == want, "new-side line differs: {:?}", shown);
+                ia += 1;
+            }
+        }
+        let want_old = if nold == 0 { os as isize } else { os as isize - 1 };
+        let want_new = if nnew == 0 { ns as isize } else { ns as isize - 1 };
+        assert!(h.remove.target_line == want_old && h.add.target_line == want_new, "start lines: {:?}", shown);
+    }
+}
+
 /// Native replay for Engine-B candidates on the hunk writer: random hunks with up to 90 lines per side over a small alphabet
 /// (few or no equal lines, so that the closest-match walk has to look far), written with the real formatter, read back with
 /// parse_hunk: same two sequences and start lines; writing the re-parsed hunk gives the same bytes.
